@@ -481,7 +481,18 @@ func (c *c12Case) sx() string {
 			if ob.N < 8 {
 				continue
 			}
-			cuts = append(cuts, sxL(sxI(ob.N), sxRecs(ob.Seq), sxRecs(ob.At)))
+			var mixes []string
+			for par, mix := range ob.Mix {
+				var prog, out []string
+				for i := 0; i < len(c.Recs)+1; i++ {
+					prog = append(prog, sxBool(i%2 != par))
+				}
+				for _, r := range mix {
+					out = append(out, r.sxMixed())
+				}
+				mixes = append(mixes, sxL(sxList(prog), sxList(out)))
+			}
+			cuts = append(cuts, sxL(sxI(ob.N), sxRecs(ob.Seq), sxRecs(ob.At), sxList(mixes)))
 		}
 		return sxL("n0", sxL(head...), sxList(cuts))
 	case "hdr":
@@ -609,7 +620,7 @@ func init() {
 		ID: "C12", Num: 12,
 		Gen:  genC12,
 		New:  func() Case { return &c12Case{} },
-		Rule: "cut: files of 1-5 adversarial records per compression type, every truncation length 0..size, sequential reader and ReadNextAt at every record offset; hdr: every header byte of every record x all 255 other values (short files) or {00,ff,91,8d,4c,01,80} (longer files), both readers; filehdr: version 0..9 x compression 0..6 plus large values. Non-trivial: >=2 records (or file-header grid).",
+		Rule: "cut: files of 1-5 adversarial records per compression type (plus files with nil records between data records, and files with records of 512 KiB+ / 1 MiB+ cut at sampled lengths), every truncation length 0..size, sequential reader, ReadNextAt at every record offset and two read/skip programs (skip even / read odd positions and the reverse) over every cut; hdr: every header byte of every record x all 255 other values (short files) or {00,ff,91,8d,4c,01,80} (longer files), both readers; filehdr: version 0..9 x compression 0..6 plus large values. Non-trivial: >=2 records (or file-header grid).",
 	})
 }
 
